@@ -227,6 +227,12 @@ func (t DeployTransition) do(env *Environment) (err error) {
 			Infof("waiting %s for workflow to become active", deploymentTimeout.String())
 	WORKFLOW_ACTIVE_LOOP:
 		for {
+			// The adapter drops a notification when this loop is not waiting in the select
+			// below at that very moment (e.g. while it handles a state notification), so the
+			// status itself is consulted as well.
+			if wfStatus = wf.GetStatus(); wfStatus == task.ACTIVE {
+				break WORKFLOW_ACTIVE_LOOP
+			}
 			select {
 			case wfStatus = <-notifyStatus:
 				log.WithField("status", wfStatus.String()).
@@ -266,6 +272,10 @@ func (t DeployTransition) do(env *Environment) (err error) {
 
 			case <-time.After(deploymentTimeout):
 				wfStatus = wf.GetStatus()
+				if wfStatus == task.ACTIVE {
+					// the ACTIVE notification was missed, the workflow did deploy
+					break WORKFLOW_ACTIVE_LOOP
+				}
 				inactiveTaskRoles := make([]string, 0)
 				undeployableTaskRoles := make([]string, 0)
 				workflow.LeafWalk(wf, func(role workflow.Role) {
